@@ -687,10 +687,43 @@ def cases(tier):
         for i in range(n):
             out.append({'type': t, 'first': i})      # one case per first operation (load balance); states are deduplicated per case
     out.append({'type': 'special', 'name': 'selfpreempt'})
+    # deeper than the search goes: two users, two queued requests, then a release - the queue is walked again from within the
+    # release, a preempting request that was blocked behind a better non-preempting one may evict a user only now
+    for i in range(len(DEEP_USERS)):
+        for j in range(len(DEEP_USERS)):
+            out.append({'type': 'special', 'name': 'deep', 'u1': i, 'u2': j})
     return out
 
 
+DEEP_USERS = [('request', 2, True, 1), ('request', 1, True, 1), ('request', 2, False, 1)]
+DEEP_QUEUED = [('request', p, pre, 1) for p in (0, 1, 2) for pre in (True, False)]
+
+
+def deep_histories(i, j):
+    for a in DEEP_QUEUED:
+        for b in DEEP_QUEUED:
+            for rel in (0, 1):
+                yield [[DEEP_USERS[i]], [DEEP_USERS[j]], [a], [b], [('release', rel)]]
+                yield [[DEEP_USERS[i]], [DEEP_USERS[j]], [a], [b], [('release', rel)], [('release', 1 - rel)]]
+
+
+def explore_deep(case):
+    viol, n = [], 0
+    for tname in ('preempt2', 'presource2') if 'presource2' in TYPES else ('preempt2',):
+        for steps in deep_histories(case['u1'], case['u2']):
+            if TYPES[tname][0] != 'preempt':
+                steps = [[(op[0], op[1], True, op[3]) if op[0] == 'request' else op for op in g] for g in steps]
+            n += 1
+            msgs = replay(None, {'type': tname, 'steps': steps})
+            if msgs:
+                viol.append({'faults': {'type': tname, 'steps': steps}, 'msgs': msgs})
+                break
+    return {'execs': n, 'nontrivial': n, 'outcomes': {'deep': n}, 'counters': {}, 'samples': [], 'viol': viol[:1]}
+
+
 def explore_case(case, tier):
+    if case['type'] == 'special' and case.get('name') == 'deep':
+        return explore_deep(case)
     if case['type'] == 'special':
         msgs = self_preemption(1, None) + self_preemption(2, 0) + self_preemption(2, 3)
         return {'execs': 3, 'nontrivial': 3, 'outcomes': {'special': 3}, 'counters': {}, 'samples': [],
